@@ -66,5 +66,8 @@ func init() {
 	maps.Copy(externals, map[string]externalFn{
 		"strconv.IsPrint":  extRunePred("strconv.IsPrint", strconv.IsPrint),
 		"unicode.IsLetter": extRunePred("unicode.IsLetter", unicode.IsLetter),
+		// Clone copies through unsafe.String; strings are immutable values here.
+		"internal/stringslite.Clone": func(fr *frame, args []value) value { return args[0] },
+		"strings.Clone":              func(fr *frame, args []value) value { return args[0] },
 	})
 }
